@@ -1210,9 +1210,15 @@ func ruleLoaderCacheSSA(c *Ctx) *loaderSSA {
 				}
 				nPut++
 				bad := ""
-				for v := range backSlice(mu.Value) {
+				sl, unbound := backSlicePath(mu.Value, nil)
+				for v := range sl {
 					if v == nil {
 						continue
+					}
+					if prm, isParam := v.(*ssa.Parameter); isParam {
+						if _, free := unbound[prm]; !free {
+							continue // a parameter of a helper that the slice entered with its arguments bound
+						}
 					}
 					t := v.Type()
 					if pt, ok := t.Underlying().(*types.Pointer); ok {
